@@ -20,6 +20,7 @@ import (
 	"sort"
 	"strings"
 	"sync"
+	"time"
 
 	"genir/lay"
 )
@@ -85,6 +86,8 @@ func main() {
 	must(err)
 	workAbs, err := filepath.Abs(*work)
 	must(err)
+	capnpcAbs, err := filepath.Abs(*capnpc)
+	must(err)
 	must(os.MkdirAll(workAbs, 0o755))
 
 	var entries []*entry
@@ -105,6 +108,12 @@ func main() {
 	must(err)
 	must(os.WriteFile(filepath.Join(genDir, "go.sum"), sum, 0o644))
 
+	t0 := time.Now()
+	lap := func(what string) {
+		fmt.Fprintf(os.Stderr, "genir: %s %.1fs\n", what, time.Since(t0).Seconds())
+		t0 = time.Now()
+	}
+	lap("corpus")
 	sem := make(chan struct{}, 8)
 	var wg sync.WaitGroup
 	for _, e := range entries {
@@ -113,7 +122,7 @@ func main() {
 			defer wg.Done()
 			sem <- struct{}{}
 			defer func() { <-sem }()
-			generate(e, *capnpc, workAbs, genDir)
+			generate(e, capnpcAbs, workAbs, genDir)
 			if e.rep.GenOK {
 				translate(e, genDir)
 			}
@@ -121,6 +130,7 @@ func main() {
 	}
 	wg.Wait()
 
+	lap("generate+translate")
 	// compile the emitted packages (one go invocation; errors are attributed by package)
 	{
 		args := []string{"build"}
@@ -181,9 +191,11 @@ func main() {
 		}
 	}
 
+	lap("compile")
 	must(writeCoq(*coq, entries))
 	must(writeReports(workAbs, entries))
 	must(writeDriver(genDir, entries, *gobin))
+	lap("driver")
 }
 
 // unresolvedImport returns an import path of the package in dir that is neither standard library,
@@ -224,6 +236,8 @@ func trunc(s string, n int) string {
 // generate runs the generator 8 times on the request and keeps the (first) output under mod/<name>/.
 func generate(e *entry, capnpc, work, genDir string) {
 	var first map[string][]byte
+	os.MkdirAll(filepath.Join(work, "gen", e.name), 0o755)
+	os.WriteFile(filepath.Join(work, "gen", e.name, "request.bin"), e.req, 0o644)
 	for run := 0; run < 8; run++ {
 		dir := filepath.Join(work, "gen", e.name, fmt.Sprint(run))
 		os.RemoveAll(dir)
@@ -234,7 +248,7 @@ func generate(e *entry, capnpc, work, genDir string) {
 		cmd := exec.Command(capnpc)
 		cmd.Dir = dir
 		cmd.Stdin = bytes.NewReader(e.req)
-		cmd.Env = append(os.Environ(), fmt.Sprintf("GOMAXPROCS=%d", []int{1, 2, 3, 4, 8, 16, 5, 7}[run]))
+		cmd.Env = append(os.Environ(), fmt.Sprintf("GOMAXPROCS=%d", []int{1, 2, 3, 4, 5, 6, 7, 8}[run]))
 		out, err := cmd.CombinedOutput()
 		if err != nil {
 			e.rep.GenErr = trunc(strings.TrimSpace(string(out))+" ("+err.Error()+")", 800)
